@@ -13,8 +13,6 @@ import (
 func init() {
 	zzverif.Register("VerifC17Delta", VerifC17Delta)
 	zzverif.Register("VerifC17DeltaFull", VerifC17DeltaFull)
-	zzverif.Register("VerifC17Edits", VerifC17Edits)
-	zzverif.Register("VerifC17EditsLong", VerifC17EditsLong)
 }
 
 func c17SymData(name string, n int) []uint32 {
@@ -63,22 +61,6 @@ func c17ApplyEdits(old []uint32, edits []protocol.SemanticTokensEdit) ([]uint32,
 	}
 	return cur, true
 }
-
-// VerifC17Edits: computeSemanticTokensEdits(old, new) applied to old yields new, for
-// symbolic arrays of 0/5/10/15 (quick) numbers.
-func verifC17Edits(maxTok int) {
-	old := c17SymData("old", 5*zzverif.Choice("old.tokens", maxTok+1))
-	nw := c17SymData("new", 5*zzverif.Choice("new.tokens", maxTok+1))
-	edits := computeSemanticTokensEdits(old, nw)
-	zzverif.Assert(edits != nil, "edits is an array (never null)")
-	got, ok := c17ApplyEdits(old, edits)
-	zzverif.Assert(ok, "every edit fits the previous array")
-	zzverif.Assert(c17SameData(got, nw), "applying the edits to the previous array yields the new array")
-	zzverif.Reach("C17.edits.end")
-}
-
-func VerifC17Edits()     { verifC17Edits(3) }
-func VerifC17EditsLong() { verifC17Edits(6) }
 
 // ---- one inductive step of the delta protocol ----
 
